@@ -50,7 +50,51 @@ def partial_frame_step(evs: List[dict]) -> int:
     return 0
 
 
+def repo_test_traces() -> List[dict]:
+    """run the repository's own integration tests on vio under the recording plugin (vf/pytest_vio.py)"""
+    import subprocess
+    d = tempfile.mkdtemp(prefix="repotests_")
+    try:
+        out = os.path.join(d, "traces.ndjson")
+        env = dict(os.environ, VERIF_TRACE_OUT=out, PYTHONPATH=os.path.dirname(os.path.dirname(os.path.dirname(os.path.abspath(__file__)))) + ":/repo/src")
+        r = subprocess.run(["/venv/bin/python", "-m", "pytest", "-q", "-p", "no:cacheprovider", "-p", "vf.pytest_vio", "--timeout=300",
+                            "tests/test_integration.py", "tests/test_sync.py", "tests/test_encoding.py"],
+                           cwd="/repo", env=env, capture_output=True, text=True, timeout=900)
+        if not os.path.exists(out):
+            raise RuntimeError("recording plugin produced no traces:\n" + (r.stdout + r.stderr)[-1500:])
+        return [json.loads(l) for l in open(out)], r.returncode
+    finally:
+        shutil.rmtree(d, ignore_errors=True)
+
+
+def run_repo_tests(prop: str) -> Dict[str, Any]:
+    traces, rc = repo_test_traces()
+    verdicts = engine.run_and_validate([{"tid": t["tid"], "ev": t["ev"]} for t in traces])
+    viol, other, nok, kinds = [], 0, 0, {}
+    for t in traces:
+        v = verdicts[t["tid"]]
+        if t.get("crashed"):
+            v = dict(v, res="fail", props=sorted(set(v.get("props", [])) | {"C03"}), step=v.get("step") or len(t["ev"]))
+        if v["res"] == "ok":
+            nok += 1
+            continue
+        tags = [p for p in v.get("props", []) if p.startswith(prop)]
+        if not tags:
+            other += 1
+            k = ",".join(sorted(v.get("props", []))) or "drift"
+            kinds[k] = kinds.get(k, 0) + 1
+            continue
+        viol.append({"signature": sig_of(prop, {"ev": t["ev"], "crashed": t.get("crashed")}, v) + "/repo-test",
+                     "replay": {"family": "repo-tests", "test": t.get("test"), "verdict": v, "events": t["ev"][max(0, v["step"] - 6): v["step"]]}})
+    mc = {"distinct": 0, "states": 0, "depth": 0, "wall_s": 0.0}
+    runs = [{"ev": t["ev"], "tid": t["tid"]} for t in traces]
+    return {"fam": "repo-tests", "mc": mc, "behs": [t.get("test") for t in traces], "runs": runs, "nok": nok, "other": other,
+            "other_kinds": kinds, "violations": viol, "pytest_rc": rc}
+
+
 def run_family(prop: str, fam: str, tier: str, seed: int, num: int, depth: int, nprof: int, scen=None) -> Dict[str, Any]:
+    if scen == "repo-tests":
+        return run_repo_tests(prop)
     if scen is not None:
         mc = {"distinct": 0, "states": 0, "depth": 0, "wall_s": 0.0}
         behs = scen(seed, num)
@@ -130,7 +174,12 @@ def run(prop: str, tier: str, seed: int) -> Dict[str, Any]:
         if res["other"]:
             notes.append(f"family {item['fam']}: {res['other']} trace(s) rejected on clauses of OTHER properties "
                          f"(not counted against {prop}): {res['other_kinds']}")
-        if item.get("scen") is not None:
+        if item.get("scen") == "repo-tests":
+            fams.append({"family": "repo-tests", "source": "the repository's own tests/test_integration.py, test_sync.py, test_encoding.py executed on vio under the "
+                         "recording plugin vf/pytest_vio.py; every manager loop iteration validated by Manager_Trace",
+                         "tests": len(res["behs"]), "traces": len(res["runs"]), "accepted": res["nok"], "rejected_other_property": res["other"],
+                         "events": sum(len(r["ev"]) for r in res["runs"]), "pytest_rc": res.get("pytest_rc")})
+        elif item.get("scen") is not None:
             fams.append({"family": item["fam"], "source": "vf/scenarios.py enumeration (oracle: Manager_Trace)",
                          "behaviours": len(res["behs"]), "traces": len(res["runs"]), "accepted": res["nok"],
                          "rejected_other_property": res["other"]})
@@ -142,7 +191,7 @@ def run(prop: str, tier: str, seed: int) -> Dict[str, Any]:
                                              families.FAMILIES[item["fam"]].get("invariants", []),
                        "behaviours": len(res["behs"]), "traces": len(res["runs"]), "accepted": res["nok"],
                        "rejected_other_property": res["other"]})
-        if res["behs"]:
+        if res["behs"] and item.get("scen") != "repo-tests":
             samples.append({"behaviour": res["behs"][0][-6:]})
         if res["runs"]:
             evs = res["runs"][0]["ev"]
